@@ -7,7 +7,10 @@
          digest.get algo reverse preimage         (get_hash_digest, optional reverse(), finalize)
          hmac.chunked digest key chunk...         (hmac::Hmac<D> fed in pieces; D = any of the seven digests)
          kdf.mnemonic mnemonic flag passphrase    (ExtendedPrivateKey::from_mnemonic: private key; chain code)
-         kdf.seed seed                            (ExtendedPrivateKey::from_seed: private key; chain code) *)
+         kdf.seed seed                            (ExtendedPrivateKey::from_seed: private key; chain code)
+         kdf.pbkdf2_impl pw salt algo rounds len  (KDF::pbkdf2_impl called directly)
+         digest.oneshot adapter msg               (D::digest(msg); output size; block size)
+         digest.seq adapter start step...         (any interleaving of the adapter's entry points, see run_seq) *)
 From BSV Require Import Base.Hex Prim.MD Prim.Hmac Prim.Pbkdf2 Spec.HashSpec Model.HashApi.
 
 Definition out3 (impl spec known : string) : string := impl +++ "|" +++ spec +++ "|" +++ known.
@@ -33,8 +36,10 @@ Definition impl_hmac (h : hash_id) : bytes -> bytes -> bytes :=
   | HSha512 => sha_512_hmac | HRipemd160 => ripemd_160_hmac | HHash160 => hash_160_hmac
   end.
 
+(* second field: Hash::to_hex() of the same value (lower-case hex text) *)
 Definition run_hash (h : hash_id) (m : bytes) : string :=
-  out3 (ok (impl_hash h m)) (ok (hash_spec h m)) "-".
+  out3 (ok (impl_hash h m) +++ ";" +++ hex_of_bytes (impl_hash h m))
+       (ok (hash_spec h m) +++ ";" +++ hex_of_bytes (hash_spec h m)) "-".
 
 Definition run_hmac (h : hash_id) (input key : bytes) : string :=
   out3 (ok (impl_hmac h input key)) (ok (hmac_spec h key input)) "-".
@@ -129,6 +134,74 @@ Definition run_get (algo : string) (reverse : string) (m : bytes) : string :=
   | _, _ => "BADARG"
   end.
 
+(* digest.seq: start = d (Default) | t / f (Hash160::new(true/false)) | g0=<preimage> / g1=<preimage>
+   (get_hash_digest(Sha256 / Sha256d, preimage), adapter sha256r only);
+   steps: u=<data> Update::update   h=<data> Digest::chain
+          r reverse()   x Reset::reset   c clone().finalize_fixed() (prints)
+          f finalize_fixed_reset (prints)   i finalize_into_reset (prints)   g Digest::finalize_reset (prints)
+   and a final finalize_fixed (prints).  Output: OK:<out>;<out>;...                                          *)
+Inductive seq_step := SUpd (d : bytes) | SRev | SReset | SClone | SFinReset.
+
+Definition step_of (s : string) : option seq_step :=
+  match split "=" s with
+  | [c; d] => if String.eqb c "u" || String.eqb c "h"
+              then match expand d with Some b => Some (SUpd b) | None => None end else None
+  | ["r"] => Some SRev | ["x"] => Some SReset | ["c"] => Some SClone
+  | ["f"] => Some SFinReset | ["i"] => Some SFinReset | ["g"] => Some SFinReset
+  | _ => None
+  end.
+Fixpoint steps_of (l : list string) : option (list seq_step) :=
+  match l with
+  | [] => Some []
+  | s :: r => match step_of s, steps_of r with Some a, Some b => Some (a :: b) | _, _ => None end
+  end.
+
+(* implementation model: the adapter state machine of Model/HashApi.v *)
+Fixpoint impl_seq (k : adapter_kind) (a : adapter) (steps : list seq_step) : list bytes :=
+  match steps with
+  | [] => [ad_finalize k a]
+  | SUpd d :: r => impl_seq k (ad_update a d) r
+  | SRev :: r => impl_seq k (ad_reverse a) r
+  | SReset :: r => impl_seq k (ad_reset a) r
+  | SClone :: r => ad_finalize k a :: impl_seq k a r
+  | SFinReset :: r => let '(o, a') := d_finalize_reset (adapter_impl k) a in o :: impl_seq k a' r
+  end.
+
+(* specification: the published function of everything absorbed since the last reset, reversed iff
+   reverse() was ever taken *)
+Fixpoint spec_seq (h : hash_id) (buf : bytes) (rv : bool) (steps : list seq_step) : list bytes :=
+  let out := if rv then rev (hash_spec h buf) else hash_spec h buf in
+  match steps with
+  | [] => [out]
+  | SUpd d :: r => spec_seq h (buf ++ d) rv r
+  | SRev :: r => spec_seq h buf true r
+  | SReset :: r => spec_seq h [] rv r
+  | SClone :: r => out :: spec_seq h buf rv r
+  | SFinReset :: r => out :: spec_seq h [] rv r
+  end.
+
+Fixpoint show_outs (l : list bytes) : string :=
+  match l with [] => "" | [x] => show_bytes x | x :: r => show_bytes x +++ ";" +++ show_outs r end.
+
+(* start state: (model adapter, spec buffer, spec flag) *)
+Definition start_of (k : adapter_kind) (s : string) : option (adapter * bytes * bool) :=
+  match split "=" s, k with
+  | ["d"], _ => Some (ad_new, [], false)
+  | ["t"], AHash160 => Some (ad_new_rev true, [], true)
+  | ["f"], AHash160 => Some (ad_new_rev false, [], false)
+  | ["g0"; d], ASha256r => match expand d with Some m => Some (get_hash_digest SHSha256 m, m, false) | None => None end
+  | ["g1"; d], ASha256r => match expand d with Some m => Some (get_hash_digest SHSha256d m, hash_spec HSha256 m, false) | None => None end
+  | _, _ => None
+  end.
+
+Definition run_seq (k : adapter_kind * hash_id) (st : adapter * bytes * bool) (steps : list seq_step) : string :=
+  let '(a, buf, rv) := st in
+  out3 ("OK:" +++ show_outs (impl_seq (fst k) a steps)) ("OK:" +++ show_outs (spec_seq (snd k) buf rv steps)) "-".
+
+Definition run_oneshot (k : adapter_kind * hash_id) (m : bytes) : string :=
+  let sizes := ";" +++ dec_of_N (N.of_nat (hash_len (snd k))) +++ ";" +++ dec_of_N (N.of_nat (d_block (adapter_impl (fst k)))) in
+  out3 (ok (d_digest (adapter_impl (fst k)) m) +++ sizes) (ok (hash_spec (snd k) m) +++ sizes) "-".
+
 (* hmac::Hmac<D> driven directly, message in pieces *)
 Definition digest_of_name (s : string) : option (digest_impl * hash_id) :=
   match s with
@@ -168,7 +241,8 @@ Definition run (op : string) (args : list string) : string :=
         end
   | "kdf", _ =>
       match after_dot op, args with
-      | "pbkdf2", [pw; salt; algo; rounds; len] =>
+      | "pbkdf2", [pw; salt; algo; rounds; len]
+      | "pbkdf2_impl", [pw; salt; algo; rounds; len] =>
           match expand pw, expand salt, algo_of_name algo, N_of_dec rounds, N_of_dec len with
           | Some p, Some s, Some a, Some r, Some l => run_pbkdf2 a p s r l
           | _, _, _, _, _ => "BADARG"
@@ -198,6 +272,19 @@ Definition run (op : string) (args : list string) : string :=
           match adapter_of_name ad, mode_of mode, N_of_dec n, expand_list chunks with
           | Some k, Some rv, Some n', Some cs => run_reset k rv (N.to_nat (N.min n' 1000)) cs
           | _, _, _, _ => "BADARG"
+          end
+      | "oneshot", [ad; m] =>
+          match adapter_of_name ad, expand m with
+          | Some k, Some mb => run_oneshot k mb
+          | _, _ => "BADARG"
+          end
+      | "seq", ad :: start :: steps =>
+          match adapter_of_name ad with
+          | Some k => match start_of (fst k) start, steps_of steps with
+                      | Some st, Some ss => run_seq k st ss
+                      | _, _ => "BADARG"
+                      end
+          | None => "BADARG"
           end
       | "get", [algo; reverse; m] =>
           match expand m with Some mb => run_get algo reverse mb | None => "BADARG" end
